@@ -14,6 +14,7 @@ import Ptx.Wire
 import Ptx.Tab.Calculus
 import Ptx.Sem.Sem
 import Ptx.Gen.All
+import Ptx.Sem.TruthTable
 namespace Ptx.Drv.Tab
 open Ptx Ptx.Wire
 
@@ -86,9 +87,29 @@ def run (L : LogicData) (t0 : Tableau) (steps : List (List Step)) : String :=
         | none => s!"reject {i} illegal-step :: " ++ showTab t
   go t0 0 0 0 steps
 
+def parseSents (ts : Toks) : Option (List Sent) :=
+  (splitAt ";" ts).filter (· ≠ []) |>.mapM fun st =>
+    match parseSent st with
+    | some (s, []) => some s
+    | _ => none
+
+/-- `ttvalid <LOGIC> ## premises ; … ## conclusion` : truth-table validity under the documented tables -/
+def ttValidReq (lg : String) (rest : Toks) : String :=
+  match Gen.byName lg, splitAt "##" rest with
+  | some L, [ps, c] =>
+      match parseSents ps, parseSent c with
+      | some prem, some (conc, []) =>
+          let arg : Argument := ⟨prem, conc⟩
+          if !arg.isProp then "err:not-propositional"
+          else if ttValid L.sem.T arg then "valid" else "invalid"
+      | _, _ => "err:wire"
+  | none, _ => "err:unknown-logic"
+  | _, _ => "err:wire"
+
 /-- `none` = not my request -/
 def handle (ts : List String) : Option String :=
   match ts with
+  | "ttvalid" :: lg :: "##" :: rest => some (ttValidReq lg rest)
   | "replay" :: lg :: "##" :: rest =>
       match Gen.byName lg with
       | none => some "err:unknown-logic"
